@@ -5,7 +5,7 @@
    stdhash  ( kind bytes [bytes] )       -> bytes | number          kind = path | os | str | pathcmp
    args     ( argv files )               -> ( ok ... ) | ( cannot_cache why extra ) | ( not_compilation )
    key      ( argv files depinfo env shlibs version filenames )
-                                         -> ( ok PREFIX tail_ok key_ok outputs pairs ) | ( err ) | as for args
+                                         -> ( ok PREFIX tail_ok key_ok outputs pairs compile_args ) | ( err ) | as for args
    keypair  ( reqA reqB meta )           -> ( same resA resB )
    files    = ( (relpath content digest (archive_digest)?) ... )   relative to the virtual working directory /@ *)
 From Coq Require Import List NArith Bool.
@@ -149,7 +149,8 @@ Definition key_full (x : sx) : sx * option bytes :=
                     sbool tail_is_last;
                     sbool true;
                     SL (map enc_output (outputs_of p (map get_B (get_L (nth_sx 6 x)))));
-                    SL (map enc_pair (p_arguments p)) ],
+                    SL (map enc_pair (p_arguments p));
+                    SL (map SB (compile_args p)) ],
                Some (encode r))
           | _, _, _, _ => (SL [sym "err"], None)
           end
@@ -175,6 +176,18 @@ Definition run_cwdpair (x : sx) : sx :=
   let b := path_join vcwd (get_B (nth_sx 2 x)) in
   SL [sbool (ok && bytes_eqb (path_hash a) (path_hash b)); sbool ok; sbool ok].
 
+(* ( (name kind digest) ... ): the entries of <sysroot>/lib -> the digests hashed for the compiler, in order *)
+Definition dec_kind (x : sx) : fkind :=
+  if is_sym "file" x then KFile else if is_sym "dir" x then KDir else if is_sym "symfile" x then KSymFile
+  else if is_sym "symdir" x then KSymDir else if is_sym "dangling" x then KSymDangling else KOther.
+
+Definition run_sysroot (x : sx) : sx :=
+  let es := map (fun e => (get_B (nth_sx 0 e), dec_kind (nth_sx 1 e), get_B (nth_sx 2 e))) (get_L (nth_sx 0 x)) in
+  let libs := sysroot_libs (bs "/L") (map (fun e => (fst (fst e), snd (fst e))) es) in
+  let digest_of p := match find (fun e => path_eqb (path_join (bs "/L") (fst (fst e))) p) es with
+                     | Some e => snd e | None => [] end in
+  SL [sym "ok"; SL (map (fun p => SB (digest_of p)) libs)].
+
 Definition dispatch (leg : list N) (x : sx) : sx :=
   if bytes_eqb leg (bs "depinfo") then run_depinfo x
   else if bytes_eqb leg (bs "envdep") then run_envdep x
@@ -183,4 +196,5 @@ Definition dispatch (leg : list N) (x : sx) : sx :=
   else if bytes_eqb leg (bs "key") then run_key x
   else if bytes_eqb leg (bs "keypair") then run_keypair x
   else if bytes_eqb leg (bs "cwdpair") then run_cwdpair x
+  else if bytes_eqb leg (bs "sysroot") then run_sysroot x
   else err "unknown leg".
